@@ -87,7 +87,70 @@ func fromMap(v ssa.Value, mapField string, depth int) bool {
 	return false
 }
 
+// checkSweepDecidesUnderItsLock: the stale sweep removes a connection from the registry only where
+// it found it stale in the same write-locked section (a snapshot of "stale" connections taken in an
+// earlier section may name a connection that has been refreshed or re-authenticated since; removing
+// it then leaves the client index pointing at a connection that is no longer registered).
+func checkSweepDecidesUnderItsLock(r *Report) {
+	cs := r.P.Fn(sessPkg, "ClientRegistry.CleanupStale")
+	if cs == nil {
+		return
+	}
+	n := 0
+	for _, u := range samePkgReach(cs, 1) {
+		if u.Parent() != nil {
+			continue
+		}
+		for _, d := range mapDeletes(u, "connMap") {
+			n++
+			var stale *ssa.Call
+			for _, ft := range Facts(d.Block()) {
+				if c, ok := stripValue(ft.Cond).(*ssa.Call); ok && ft.Pol && CalleeOf(c).Name == "IsStale" {
+					stale = c
+				}
+			}
+			ok := stale != nil && lockSetsOf(u).Held(stale, r.lockFor(sessPkg, "ClientRegistry", "connMap", "mu")) == "W" && unlockBetween(stale, d) == nil
+			if u != cs && stale == nil {
+				// a removal helper: judged at its call sites in the sweep
+				ok = true
+				for _, site := range staticCallSites(r.P, u) {
+					if Outermost(site.Parent()) != cs {
+						continue
+					}
+					sok := false
+					for _, ft := range Facts(site.Block()) {
+						if c, isC := stripValue(ft.Cond).(*ssa.Call); isC && ft.Pol && CalleeOf(c).Name == "IsStale" {
+							if lockSetsOf(site.Parent()).Held(c, r.lockFor(sessPkg, "ClientRegistry", "connMap", "mu")) == "W" && unlockBetween(c, site) == nil {
+								sok = true
+							}
+						}
+					}
+					if !sok {
+						ok = false
+					}
+				}
+			}
+			if u != cs && len(staticCallSites(r.P, u)) > 0 {
+				inSweep := false
+				for _, site := range staticCallSites(r.P, u) {
+					if Outermost(site.Parent()) == cs {
+						inSweep = true
+					}
+				}
+				if !inSweep {
+					continue
+				}
+			}
+			r.Ob("R-C07-5", d.Pos(), ok, "the stale sweep removes a connection only where IsStale() answered true inside the same write-locked section", r.P.FuncName(u), "sweep-decides-under-its-lock")
+		}
+	}
+	if n == 0 {
+		r.Fail("R-C07-5", cs.Pos(), "no removal from connMap found in the stale sweep", "CleanupStale", "sweep-decides-under-its-lock:anchor")
+	}
+}
+
 func runC07(r *Report) {
+	checkSweepDecidesUnderItsLock(r)
 	// ---- R-C07-1 guarded-by ---------------------------------------------------
 	ctor := func(names ...string) map[string]string {
 		m := map[string]string{}
